@@ -402,7 +402,9 @@ func RestartCheck(id *Identity, dir, scratch string, lockBody []byte, tag string
 	if len(out) > 600 {
 		out = out[len(out)-600:]
 	}
-	return fmt.Errorf("restart child died: %s", out)
+	// neither answer: the child itself failed (not a statement about the
+	// directory); the episode is abandoned as a harness error
+	panic(fmt.Sprintf("restart child died: %s", out))
 }
 
 // RestartChildMain is the body of TestRestartChild.
